@@ -359,6 +359,23 @@ struct Pipeline {
             }
             if (b.has_aec_array && !(h.other & 2)) V("C04", "I04/aec-despite-cleared-hint", where);
             if (b.has_mm_array && !(h.other & 1)) V("C04", "I04/mm-despite-cleared-hint", where);
+            // ... and nothing the set the block itself REFERS TO excludes ("the preamble states exactly the hints that were applied")
+            if (b.bp_index != m.set && b.bp_index < M.params.size()) {
+                model::Hints hs = model::Hints::of(M.params[b.bp_index]);
+                std::string bad;
+                for (auto& mem : b.members) {
+                    bool ok = true;
+                    if (mem.compare(0, 3, "qr.") == 0 && mem != "qr.rq") ok = (hs.qr >> std::stoi(mem.substr(3))) & 1;
+                    else if (mem.compare(0, 4, "sig.") == 0) ok = ((hs.sig >> std::stoi(mem.substr(4))) & 1) && ((hs.qr >> 4) & 1);
+                    else if (mem.compare(0, 3, "rr.") == 0) ok = (hs.rr >> std::stoi(mem.substr(3))) & 1;
+                    if (!ok && bad.empty()) bad = "member " + mem;
+                }
+                if (bad.empty() && b.has_aec_array && !(hs.other & 2)) bad = "address events";
+                if (bad.empty() && b.has_mm_array && !(hs.other & 1)) bad = "malformed messages";
+                if (!bad.empty())
+                    V("C04", "I04/excluded-by-the-set-the-block-states", where + ": " + bad + " present although the block refers to parameter set " + std::to_string(b.bp_index) + " (built under set " + std::to_string(m.set) +
+                                                                             "), whose hints " + std::to_string(hs.qr) + "/" + std::to_string(hs.sig) + "/" + std::to_string((unsigned)hs.rr) + "/" + std::to_string((unsigned)hs.other) + " exclude it");
+            }
             // C01: content
             bool same = true;
             if (b.qr.size() != m.qr.size()) { V("C01", "I01/qr-count(ref)", where + ": " + std::to_string(b.qr.size()) + " vs model " + std::to_string(m.qr.size())); same = false; }
